@@ -10,7 +10,7 @@
    Proofs/UrlC10.v), each of which ./check C10 samples against the real library. *)
 From Coq Require Import List NArith ZArith Bool.
 From Wpull Require Import Model.UrlLib Model.Url Proofs.UrlPeProofs Proofs.UrlPathProofs Proofs.UrlEncProofs
-  Proofs.UrlNormProofs Proofs.UrlC10.
+  Proofs.UrlNormProofs Proofs.UrlC10 Proofs.UrlEquivProofs.
 Import ListNotations.
 Open Scope N_scope.
 
@@ -73,6 +73,54 @@ Print Assumptions C10_idempotent_any_encoding_refuted.
 Theorem C10_utf8_encoder_ok : enc_ok utf8.
 Proof. exact utf8_enc_ok. Qed.
 Print Assumptions C10_utf8_encoder_ok.
+
+(* ---------- equivalent spellings (the part of the last clause that is proved) ---------- *)
+(* FULL STATEMENT (not proved as one theorem): for spelling_equiv the closure of scheme/host
+   letter case, explicit default port, inserted "/.", "/x/..", "//", hex-digit case inside
+   escapes, a dropped fragment and IPv4/IPv6 re-spelling, spelling_equiv s1 s2 -> both parse
+   and url_of is equal.  Proved below: scheme case for the whole URL, for ARBITRARY input
+   text; host case, and dot / empty segment insertion, at the level of the component
+   normalizer.  Escape case, default port, fragment and IP re-spelling are checked on the
+   implementation for every generated URL (variants), not proved. *)
+
+(* two spellings that differ only in the letter case of an ASCII scheme: both are rejected
+   with the same kind, or both parse, and a network URL gets the same normalized form and
+   components *)
+Theorem C10_equiv_scheme_case_partial :
+  forall enc lower_o idna_o ipv6_o int_o unq_o (a a' rest : str),
+    all_ascii a = true -> all_ascii a' = true -> lower_ascii a = lower_ascii a' ->
+    memb 58 a = false -> memb 58 a' = false ->
+    strip (a ++ 58 :: rest) = a ++ 58 :: rest -> strip (a' ++ 58 :: rest) = a' ++ 58 :: rest ->
+    match parse enc lower_o idna_o ipv6_o int_o unq_o (a ++ 58 :: rest),
+          parse enc lower_o idna_o ipv6_o int_o unq_o (a' ++ 58 :: rest) with
+    | Ok i, Ok i' => u_network i = u_network i' /\
+                     (u_network i = true ->
+                      url_of enc i = url_of enc i' /\ u_scheme i = u_scheme i' /\ u_hostname i = u_hostname i' /\
+                      u_port i = u_port i' /\ u_path i = u_path i' /\ u_query i = u_query i')
+    | Err k, Err k' => k = k'
+    | _, _ => False
+    end.
+Proof. exact parse_scheme_case. Qed.
+Print Assumptions C10_equiv_scheme_case_partial.
+
+(* host names that differ only in ASCII letter case normalize alike *)
+Theorem C10_equiv_host_case_partial :
+  forall idna_o (h h' : str),
+    all_ascii h = true -> all_ascii h' = true -> lower_ascii h = lower_ascii h' ->
+    normalize_hostname idna_o h = normalize_hostname idna_o h'.
+Proof. exact normalize_hostname_case. Qed.
+Print Assumptions C10_equiv_host_case_partial.
+
+(* inserting "/." , an empty segment, or "/x/.." (x an ordinary segment) between two
+   slashes of a path does not change flatten_path *)
+Theorem C10_equiv_dot_segments_partial :
+  forall a b x : str,
+    flatten_path true (47 :: a ++ [47; 46; 47] ++ b) = flatten_path true (47 :: a ++ 47 :: b) /\
+    flatten_path true (47 :: a ++ [47; 47] ++ b) = flatten_path true (47 :: a ++ 47 :: b) /\
+    (seg_ok x = true -> memb 47 x = false ->
+     flatten_path true (47 :: a ++ 47 :: x ++ [47; 46; 46; 47] ++ b) = flatten_path true (47 :: a ++ 47 :: b)).
+Proof. exact (fun a b x => conj (flatten_path_insert_dot a b) (conj (flatten_path_insert_slash a b) (flatten_path_insert_updown a b x))). Qed.
+Print Assumptions C10_equiv_dot_segments_partial.
 
 (* ---------- component laws ---------- *)
 (* flatten_path (with slash flattening, as normalize_path calls it) is idempotent ... *)
@@ -142,4 +190,14 @@ Example C10_nonvacuous :
     = Some [104;116;116;112;115;58;47;47;91;58;58;49;93;47;120]
   /\ ex_url [104;116;116;112;58;47;47;85;115;101;114;58;112;37;52;48;115;64;101;120;97;109;112;108;101;46;99;111;109;47;97;47;99;37;55;69;47;100;63;113;61;97;43;98]
     = Some [104;116;116;112;58;47;47;85;115;101;114;58;112;37;52;48;115;64;101;120;97;109;112;108;101;46;99;111;109;47;97;47;99;37;55;69;47;100;63;113;61;97;43;98].
+Proof. vm_compute. repeat split. Qed.
+
+(* the equivalence theorems are about inputs that occur: HTTP: vs http: in front of the same
+   rest, under the concrete instance; /a/./b, /a//b and /a/x/../b flatten to /a/b *)
+Example C10_equiv_nonvacuous :
+  ex_url ([72;84;84;80] ++ 58 :: [47;47;104;47;97]) = ex_url ([104;116;116;112] ++ 58 :: [47;47;104;47;97])
+  /\ ex_url ([72;84;84;80] ++ 58 :: [47;47;104;47;97]) = Some [104;116;116;112;58;47;47;104;47;97]
+  /\ flatten_path true (47 :: [97] ++ [47; 46; 47] ++ [98]) = [47;97;47;98]
+  /\ flatten_path true (47 :: [97] ++ [47; 47] ++ [98]) = [47;97;47;98]
+  /\ flatten_path true (47 :: [97] ++ 47 :: [120] ++ [47; 46; 46; 47] ++ [98]) = [47;97;47;98].
 Proof. vm_compute. repeat split. Qed.
